@@ -366,10 +366,16 @@ class Gamma:
         elig = [n for n in elig if n not in exclude]
         if only is not None:
             elig = [n for n in elig if n in only]
-        renamed = [n for n in elig if lib.active_old(n)]
-        plain_ = [n for n in elig if not lib.active_old(n)]
+        renamed = [n for n in elig if self._old_names(n)]
+        plain_ = [n for n in elig if not self._old_names(n)]
         rng.shuffle(renamed)
         rng.shuffle(plain_)
+        # SettingsCase: "Q" is also a name P used to have.  The real pair (a renamed setting, a current setting that re-uses
+        # one of its old names) is always placed accordingly
+        for pool, m in ((renamed, gs.RENAMED_WITH_REUSED_OLD), (plain_, gs.REUSED_NAME)):
+            if m in pool:
+                pool.remove(m)
+                pool.insert(0, m)
         if everything:
             p, rest = renamed, plain_
             q, r = rest[0::2], rest[1::2]
@@ -389,8 +395,13 @@ class Gamma:
                 self.tok[m] = self._tokens(m, k)
         for m in self.members["Z"]:
             self.tok[m] = {"d": self._default_tok(m), "x": self._bad(m, k)}
-        self.old = {m: lib.active_old(m)[k % len(lib.active_old(m))] for m in p + [gs.LATE_SETTING]}
+        self.old = {m: self._old_names(m)[k % len(self._old_names(m))] for m in p + [gs.LATE_SETTING]}
         self.unknown = [UNKNOWN_NAME] + sorted(x for n in lib.order for x in lib.expired_old(n))
+
+    def _old_names(self, m):
+        """the active old names of m that are nothing but old names (one that is also a current setting's name is that
+        setting's: SettingsCase!OldOnly)"""
+        return [o for o in self.lib.active_old(m) if o not in self.lib.entries]
 
     def _pick(self, pool, size):
         """`size` members, at least one of which has a refusable value (so refusals can be realised)"""
@@ -1587,7 +1598,7 @@ def _gamma_from(lib, desc):
             g.tok[m] = g._tokens(m, g.k)
     for m in g.members["Z"]:
         g.tok[m] = {"d": g._default_tok(m), "x": g._bad(m, g.k)}
-    g.old = {m: lib.active_old(m)[g.k % len(lib.active_old(m))] for m in g.members["P"]}
+    g.old = {m: g._old_names(m)[g.k % len(g._old_names(m))] for m in g.members["P"] + [gs.LATE_SETTING]}
     return g
 
 
@@ -1843,6 +1854,18 @@ def selftest():
             return defs
         return getSettings
 
+    def addoptions_schema_first(self, options):
+        self._setSchema()
+        self.options.extend([o.option for o in options])
+
+    orig_rename = settingsIO.SettingRenamer.renameSetting
+
+    def rename_active_first(self, name):
+        active = self._activeRenames.get(name, None)
+        if active is not None:
+            return active, True
+        return orig_rename(self, name)
+
     orig_reader_init = R.__init__
     shared = {}
 
@@ -1918,6 +1941,8 @@ def selftest():
         ("App.getSettings: a directly applied plugin Default only sets the value", lambda: P(armi_apps.App, "getSettings", _getsettings_variant(direct_default_value_only=True))),
         ("App.getSettings: cached plugin Options are dropped", lambda: P(armi_apps.App, "getSettings", _getsettings_variant(cached_options_dropped=True))),
         ("round 2 seed 3: one SettingRenamer shared by all readers, never rebuilt", lambda: P(R, "__init__", reader_shared_renamer)),
+        ("round 3 seed 2: Setting.addOptions derives the schema before it extends the list", lambda: P(S, "addOptions", addoptions_schema_first)),
+        ("round 3 seed 3: renameSetting looks at the old names before the current names", lambda: P(settingsIO.SettingRenamer, "renameSetting", rename_active_first)),
         ("Settings.getSetting hands out the live Setting", lambda: P(CS, "getSetting", getsetting_live)),
         ("Settings.__setitem__ ignores unknown names", lambda: P(CS, "__setitem__", setitem_ignores_unknown)),
         ("FlagListSetting.dump returns Flags, not names", lambda: P(setting.FlagListSetting, "dump", flags_dump_raw)),
